@@ -9,7 +9,7 @@ RULE = ("directory trees built for real in a private temp dir: package directori
         "non-trivial = the tree has >= 2 entries or an incomplete directory")
 FUNCTIONAL = True
 ASSUMPTIONS = ["directory enumeration order, fs::read_dir, is_file/exists and read_to_string are not modelled: the harness builds real trees; results are compared sorted"]
-NAMES = [b"\xe9-1", "caf\u00e9-2.0", "foo-1.0", "foo-1.0nb2", "py39-foo-bar-2.3", "a-b-c-d", "nodash", "x-", "-y", "é-1", "pkg_install-20240101", "foo-1.0nb2-extra", "-"]
+NAMES = [b"\xe9-1", "go-tools-v0.1.0", "libfoo-snapshot20190101", "tex-bar-doc-r2019nb1", "trailing-", "p5-No-Comment-0.3", "caf\u00e9-2.0", "foo-1.0", "foo-1.0nb2", "py39-foo-bar-2.3", "a-b-c-d", "nodash", "x-", "-y", "é-1", "pkg_install-20240101", "foo-1.0nb2-extra", "-"]
 META = ["+BUILD_INFO", "+BUILD_VERSION", "+COMMENT", "+CONTENTS", "+DEINSTALL", "+DESC", "+DISPLAY", "+INSTALL", "+INSTALLED_INFO", "+MTREE_DIRS", "+PRESERVE", "+REQUIRED_BY", "+SIZE_ALL", "+SIZE_PKG"]
 REQ = ["+COMMENT", "+CONTENTS", "+DESC"]
 
@@ -19,7 +19,7 @@ def generate(rng, tier):
     cases = []
     for i in range(14):
         cases.append(Case("md.table", [str(i)], meta={"nt": True}))
-    for s in META + ["+BADFILE", "+comment", "COMMENT", "+COMMENT ", " +COMMENT", "", "+", "+DESC2", "+SIZE_PKGS", "+DESК"]:
+    for s in META + ["+BADFILE", "./+COMMENT", "a/+DESC", "/+CONTENTS", "+COMMENT/", "x/+SIZE_PKG", "./+BUILD_INFO", "+comment", "COMMENT", "+COMMENT ", " +COMMENT", "", "+", "+DESC2", "+SIZE_PKGS", "+DESК"]:
         cases.append(Case("md.from", [enc(s)], meta={"nt": True}))
     vals = ["", " x ", "line1\nline2\n", "\n\nA\r\nB\n", "42", " -7\n", "+5", "abc", "9223372036854775808", "", "1 2", "　pad　", "12\n13"]
     for _ in range(n * 3):
@@ -59,7 +59,9 @@ def generate(rng, tier):
                 files += rng.sample([m for m in META if m not in REQ], rng.randint(0, 3))
                 if rng.random() < 0.2:
                     files.append("stray.txt")
-                ents.append("d:%s:%s" % (enc(nm), ",".join(enc(f) for f in files)))
+                # a mandatory file that exists but is empty still makes the directory a package (a leading NUL marks it)
+                empt = set(rng.sample(files, min(len(files), rng.randint(1, 2)))) if (files and rng.random() < 0.25) else set()
+                ents.append("d:%s:%s" % (enc(nm), ",".join(("0 " if f in empt else "") + enc(f) for f in files)))
         cases.append(Case("db.iter", ents, meta={"nt": len(ents) >= 2 or any(e.startswith("d:") and not all(enc(q) in e for q in REQ) for e in ents)}))
     return cases
 
